@@ -28,6 +28,11 @@ package main
 //   reply   (mode asc) what the panel answers to the probe: absent = silence for the 2 s window | rdy | map | err
 //           (an `ErrorMsg=…` line: a panel in server mode that is locked / full) | txt (any other text); the client
 //           treats all of them as ASCII, and onconnect gets the error text of `err`
+//   modes   one letter per connection (the last one for every later connection): the panel negotiates a DIFFERENT mode on
+//           successive connections of one call (reconfigured panel / another device behind the address): b = binary
+//           acknowledge, then `stream`; a = silence, r = RDY, m = map line, e = ErrorMsg line, t = other text (the
+//           `reply` classes), then `astream` (hex) whose complete lines decode to `aexp`; `cut` / `hold` are clipped to
+//           the length of the stream of the connection; `mode` names the first connection's mode
 //
 // Trace events (ms since the call of ConnectToPanel):
 //   start | cancel | cancel2 | cancelfb (fallback: trigger event never happened) | listen | gorc:n (library goroutines of this script just before cancel)
@@ -123,12 +128,34 @@ func nlRunLife(a map[string]string) string {
 	if s, ok := a["stream"]; ok && s != "-" {
 		stream, _ = hex.DecodeString(s)
 	}
-	hold := nlInt(a, "hold", len(stream))
-	if cut > len(stream) {
-		cut = len(stream)
+	hold := nlInt(a, "hold", 1<<30)
+	astream := []byte{}
+	if s, ok := a["astream"]; ok && s != "-" {
+		astream, _ = hex.DecodeString(s)
 	}
-	if hold > len(stream) {
-		hold = len(stream)
+	modes := a["modes"]
+	// what the panel does on connection k: handshake mode, probe reply of an ASCII panel, stream
+	connPlan := func(k int) (string, string, []byte) {
+		if modes == "" {
+			return mode, a["reply"], stream
+		}
+		i := k - 1
+		if i >= len(modes) {
+			i = len(modes) - 1
+		}
+		switch modes[i] {
+		case 'b':
+			return "bin", "", stream
+		case 'r':
+			return "asc", "rdy", astream
+		case 'm':
+			return "asc", "map", astream
+		case 'e':
+			return "asc", "err", astream
+		case 't':
+			return "asc", "txt", astream
+		}
+		return "asc", "", astream
 	}
 	loss := a["loss"]
 	cev, cms := nlParseTrigger(a["cancel"])
@@ -196,7 +223,8 @@ func nlRunLife(a map[string]string) string {
 			atomic.StoreInt32(&ownClosed, 1)
 			c.Close()
 		}
-		switch mode {
+		cmode, creply, stream := connPlan(k)
+		switch cmode {
 		case "refuse":
 			tr.log("pcl"+ks, "pcl:"+ks+":0")
 			tr.log("", "pclose:"+ks)
@@ -223,7 +251,7 @@ func nlRunLife(a map[string]string) string {
 			}
 			c.Write([]byte{2, 0, 0, 0, 8, 2}) // binary ACK frame
 		case "asc":
-			if rp := nlReplyBytes(a["reply"]); rp != nil { // the panel answers the probe with text instead of staying silent
+			if rp := nlReplyBytes(creply); rp != nil { // the panel answers the probe with text instead of staying silent
 				select {
 				case <-gotPing:
 				case <-rdone:
@@ -258,6 +286,9 @@ func nlRunLife(a map[string]string) string {
 		limit := hold
 		if k <= cyc {
 			limit = cut
+		}
+		if limit > len(stream) {
+			limit = len(stream)
 		}
 		off := 0
 		for off < limit {
@@ -704,6 +735,25 @@ func nlLifeRec(mode string, s *nlStream, kv ...string) nlRec {
 	return nlRec{cmd: "life.run", args: args, cost: cost}
 }
 
+// a script whose successive connections negotiate the modes `modes` (see the header): both encodings travel with the record
+func nlMixRec(modes string, b, a *nlStream, kv ...string) nlRec {
+	first := "asc"
+	if modes[0] == 'b' {
+		first = "bin"
+	}
+	kv = append(kv, "modes="+modes, "astream="+hx(a.bytes), "aexp="+strings.Join(a.exp, ";"))
+	rec := nlLifeRec(first, b, kv...)
+	for _, c := range modes { // the 2 s probe window of a silent panel, the 1 s wind-down of an ASCII connection
+		if c == 'a' {
+			rec.cost += 2000
+		}
+		if c != 'b' {
+			rec.cost += 1000
+		}
+	}
+	return rec
+}
+
 func genC11(r *Rng, n int, tier string) {
 	bs, as := nlBinStream(), nlAscStream()
 	recs := []nlRec{}
@@ -889,6 +939,36 @@ func genC11(r *Rng, n int, tier string) {
 		add("bin", &bl, "cyc=1", "cut="+i2(bl.bounds[1]), "seg=1500", "cancel=held+400")
 		add("bin", &bl, "cyc=1", "cut="+i2(bl.bounds[1]-1), "cancel=held+400")
 	}
+	// (3g) successive connections of one call negotiating DIFFERENT modes (the panel was reconfigured, an auto-mode panel
+	//      answers differently, another device took the address): ASCII then binary, binary then ASCII, three sessions,
+	//      every ASCII handshake (silence, RDY, map, text, ErrorMsg + close) followed by a binary session; each session
+	//      streams in its own encoding, is dropped (before any byte / at a boundary / inside a frame / after the stream),
+	//      and the next session must deliver again from its first frame; cancellation right at the second connect, in
+	//      the second probe and in the retry sleep between the modes
+	mix := func(modes string, kv ...string) { recs = append(recs, nlMixRec(modes, &bs, &as, kv...)) }
+	full := i2(len(bs.bytes) + len(as.bytes))
+	mix("ab", "cyc=1", "cut="+full, "cancel=held+300")
+	mix("ab", "cyc=1", "cut="+i2(as.bounds[1]+3), "cancel=held+300")
+	mix("ba", "cyc=1", "cut="+full, "cancel=held+300")
+	mix("ba", "cyc=1", "cut="+i2(bs.bounds[1]+2), "cancel=held+300")
+	mix("aba", "cyc=2", "cut="+full, "cancel=held+300")
+	mix("bab", "rc=2", "cyc=2", "cut="+i2(as.bounds[0]), "seg=3", "cancel=held+300")
+	mix("eb", "cyc=1", "cut=0", "cancel=held+300")
+	mix("eb", "cyc=1", "cut="+full, "cancel=held+300")
+	mix("rb", "cyc=1", "cut="+i2(as.bounds[1]), "cancel=held+300")
+	mix("mbt", "cyc=2", "cut="+i2(as.bounds[0]+2), "cancel=held+300")
+	mix("tb", "rc=2", "cyc=1", "cut="+full, "feed=dis1+300", "fn=3", "fi=120", "cancel=held+300")
+	mix("rb", "cyc=1", "cut="+full, "cancel=con2+0")
+	mix("ba", "cyc=1", "cut="+full, "cancel=acc2+700")
+	mix("rbr", "cyc=2", "cut="+full, "cancel=dis2+500")
+	if thorough {
+		for cut := 0; cut <= len(as.bytes); cut += 3 {
+			mix("rb", "cyc=1", "cut="+i2(cut), "cancel=held+300")
+			mix("br", "cyc=1", "cut="+i2(cut), "cancel=held+300")
+		}
+		mix("abab", "cyc=3", "cut="+full, "cancel=held+300")
+		mix("bebm", "cyc=3", "cut="+i2(bs.bounds[0]), "cancel=held+300")
+	}
 	// (4) panel closing right after accept; cancellation while it keeps doing so
 	add("refuse", nil, "cancel=dis1+300")
 	add("refuse", nil, "cancel=dis2+300")
@@ -948,6 +1028,25 @@ func genC11(r *Rng, n int, tier string) {
 		}
 		if r.Chance(20) {
 			kv = append(kv, "feed=con1+"+i2(r.Range(0, 200)), "fn="+i2(r.Range(2, 20)), "fi="+i2(r.Range(5, 80)), "fb="+i2(r.Pick(0, 0, 2000, 30000)))
+		}
+		if cyc > 0 && loss == "" && r.Chance(30) {
+			// a mode per connection, drawn at random, never the same on two successive connections
+			ms := ""
+			for k := 0; k <= cyc; k++ {
+				if (k == 0 && mode == "bin") || (k > 0 && ms[k-1] != 'b') {
+					ms += "b"
+				} else {
+					ms += string("armet"[r.Intn(5)])
+				}
+			}
+			rkv := []string{}
+			for _, x := range kv {
+				if !strings.HasPrefix(x, "reply=") {
+					rkv = append(rkv, x)
+				}
+			}
+			mix(ms, rkv...)
+			continue
 		}
 		add(mode, s, kv...)
 	}
